@@ -123,6 +123,11 @@ pub trait Check: Sync + Send {
     fn stub_components(&self) -> Vec<&'static str> {
         Vec::new()
     }
+    /// A property decided by several binaries ("legs"): tag in replay file
+    /// names and in the evidence file name (`<id>.<tag>.json`, merged later).
+    fn leg(&self) -> &'static str {
+        ""
+    }
     /// For properties whose violation *is* nondeterminism (C16, C09 live
     /// randomness): a finding whose replay does not reproduce byte-identically
     /// is still reported as a violation (with a note) instead of a harness error.
@@ -626,8 +631,9 @@ fn run_tier<C: Check>(check: &C, tier: Tier) -> i32 {
     for f in by_run.iter().take(12) {
         let (sc, v, steps) = minimise(check, &f.scenario, &f.violation);
         let file = root.join("replays").join(format!(
-            "{}-{}-{}-{}.json",
+            "{}-{}{}-{}-{}.json",
             check.id(),
+            if check.leg().is_empty() { String::new() } else { format!("{}-", check.leg()) },
             sanitize(&v.key),
             seed,
             f.run
@@ -727,6 +733,9 @@ fn run_tier<C: Check>(check: &C, tier: Tier) -> i32 {
         ));
     }
     let mut coverage = serde_json::Map::new();
+    if !check.leg().is_empty() {
+        coverage.insert("leg".into(), json!(check.leg()));
+    }
     coverage.insert("evaluations".into(), json!(total));
     coverage.insert("distinct_nontrivial".into(), json!(distinct));
     coverage.insert("nontrivial_runs".into(), json!(nontrivial));
@@ -766,7 +775,11 @@ fn run_tier<C: Check>(check: &C, tier: Tier) -> i32 {
     });
     let evdir = root.join("evidence");
     let _ = std::fs::create_dir_all(&evdir);
-    let evfile = evdir.join(format!("{}.json", check.id()));
+    let evfile = if check.leg().is_empty() {
+        evdir.join(format!("{}.json", check.id()))
+    } else {
+        evdir.join(format!("{}.{}.json", check.id(), check.leg()))
+    };
     if let Err(e) = std::fs::write(&evfile, serde_json::to_string_pretty(&evidence).unwrap_or_default()) {
         eprintln!("HARNESS-ERROR: cannot write evidence {}: {e}", evfile.display());
         return 2;
